@@ -210,6 +210,8 @@ def emit_items(items):
             out.append("\n<%block>" + emit_items(it[1]) + "</%block>\n")
         elif k == "defblock":  # negative: named block inside a def
             out.append('<%%def name="bad()"><%%block name="%s">x</%%block></%%def>' % it[1])
+        elif k == "defblockwrapped":  # negative: named block inside a def, below an anonymous block
+            out.append('<%%def name="bad()">\n<%%block>a<%%block name="%s">x</%%block></%%block></%%def>' % it[1])
         elif k == "callblock":
             out.append('<%%call expr="d1()"><%%block name="%s">x</%%block></%%call>' % it[1])
     return "".join(out)
@@ -396,7 +398,7 @@ def negatives(case, g):
 
     c = copy.deepcopy(case)
     lv = c["levels"][0]
-    kind = g.pick(["dup-block", "block-def-clash", "block-in-def", "block-in-call"])
+    kind = g.pick(["dup-block", "block-def-clash", "block-in-def", "block-in-call", "block-in-def-wrapped"])
     if kind == "dup-block":
         lv["body"].insert(1, ["block", "zz", [["text", "1"]]])
         lv["body"].insert(1, ["block", "zz", [["text", "2"]]])
@@ -405,6 +407,8 @@ def negatives(case, g):
         lv["body"].insert(1, ["block", "d1", [["text", "1"]]])
     elif kind == "block-in-def":
         lv["body"].insert(1, ["defblock", "zq"])
+    elif kind == "block-in-def-wrapped":
+        lv["body"].insert(1, ["defblockwrapped", "zq"])
     else:
         lv["defs"]["d1"] = [["text", "x"]]
         lv["body"].insert(1, ["callblock", "zq"])
